@@ -51,7 +51,24 @@ Theorem C09_evalc_consistent : ∀ c a, closed c → acyclic c → consistent c 
 Proof. exact evalc_consistent. Qed.
 Print Assumptions C09_evalc_consistent.
 
+(* sequential_unroll: a circuit that differs from the plain unrolling of the stripped circuit cs only by output marks and by
+   step-0 state inputs turned into constants (`weaker`; decided per case for the recorded result by Run_C09.agree)
+   simulates cs cycle by cycle from whatever its step-0 state nodes carry (the given constants, or free values) *)
+Theorem C09_sequential_simulates_partial : ∀ cs n sio prefix U' w,
+  closed cs → acyclic cs → free_are_inputs cs →
+  NoDup (unroll_nodes cs n sio prefix).*1 →
+  Forall (λ kv, kv.1 ∈ io_of cs ∧ kv.2 ∈ inputs cs) sio →
+  weaker (unroll_closed cs n sio prefix) U' → consistent U' w →
+  let st := λ v, w (io_name v prefix 0) in
+  let ins := λ t i, w (io_name i prefix t) in
+  ∀ o t, o ∈ io_of cs → t < n → w (io_name o prefix t) = run cs sio t st ins o.
+Proof. exact seq_result_simulates. Qed.
+Print Assumptions C09_sequential_simulates_partial.
+
 (* --- what is NOT proved (visible; decided per case by Run_C09) --- *)
+Definition C09_seq_closed_form_full : Prop := ∀ C n d q ign afo iv ru prefix U m CS sio,
+  lint_clean C → sequential_unroll C n d q ign afo iv ru prefix = Ok (U, m) → seq_stripped C d q ign ru = Ok (CS, sio) →
+  weaker (unroll_closed (c_g CS) n sio prefix) (c_g U) ∧ m = unroll_iomap (c_g CS) n prefix.
 Definition C09_closed_form_full : Prop := ∀ C n sio prefix,
   lint_clean C → bb_free C → closed (c_g C) → acyclic (c_g C) → 1 ≤ n → sio_ok (c_g C) sio → unroll_names_ok (c_g C) n sio prefix →
   unroll C n sio prefix = Ok ({| c_name := "circuit"; c_g := unroll_closed (c_g C) n sio prefix; c_bbs := ∅ |}, unroll_iomap (c_g C) n prefix).
